@@ -1,10 +1,12 @@
 (* C01 -- generated moves are exactly the legal moves.  PARTIAL.
    The full statement is `movegen_exact_statement` below; it is NOT proved (DESIGN section 6, C01: lemmas L5-L11 are
-   open).  What is proved and listed here are the closed lemmas it rests on: the slider lookups (C10), the one-step
-   shifts without wrap-around, the pawn attack sets.  Until the refinement is closed, "equals the rules" is decided
+   open).  What is proved and listed here: the second half of the statement (NoDup: no move is emitted twice, and every
+   promotion comes once per promotion piece and only on the last rank -- proofs/GenNoDup.v) for every position passing
+   `good_pos_b`, and the closed lemmas the first half rests on: the slider lookups (C10), the one-step shifts without
+   wrap-around, the pawn attack sets.  Until the refinement is closed, "equals the rules" is decided
    by the correspondence run against the executable specification spec/Rules.v (a test, not a proof). *)
 From Coq Require Import NArith ZArith List Bool Permutation.
-From Rawr Require Import Consts Bits Magic Position MoveGen Rules Abs MagicFacts ShiftFacts AbsFacts.
+From Rawr Require Import Consts Bits Magic Position MoveGen MakeStages Rules Abs MagicFacts ShiftFacts AbsFacts MakeFacts GenSane GenNoDup.
 Import ListNotations.
 Local Open Scope N_scope.
 
@@ -50,6 +52,28 @@ Theorem C01_pawn_attacks_them : forall bb j,
   = (j <? 64) && ((negb (j mod 8 =? 0) && N.testbit bb (j + 7)) || (negb (j mod 8 =? 7) && N.testbit bb (j + 9))).
 Proof. exact testbit_pawns_them. Qed.
 
+(* "no move appears twice": the (piece, from, to, promo) quadruples handed to the callback are pairwise different, and so
+   are the moves built from them (the move determines the piece: our man of that kind stands on the origin) *)
+Theorem C01_no_callback_twice : forall p, Good p -> CastleGood p -> NoDup (move_generator p).
+Proof. exact generator_NoDup. Qed.
+Theorem C01_no_move_twice : forall p, good_pos_b p = true -> NoDup (legal_moves p).
+Proof. exact good_pos_NoDup. Qed.
+
+(* "every promotion appears once per promotion piece": a pawn move to the last rank carries a promotion piece 1..4 and
+   all four are generated (once each, by NoDup); every other move carries none.  The premise on the en-passant rank is
+   what `validate` guarantees (C07_validate_sound). *)
+Theorem C01_promotions_all_four : forall p m, good_pos_b p = true -> (forall e, ep p = Some e -> rank_of e = 5) ->
+  In m (legal_moves p) -> holds p (m_from m) false PAWN ->
+  if rank_of (m_to m) =? 7
+  then 1 <= m_promo m <= 4 /\ forall pr, 1 <= pr <= 4 -> In (mkMv (m_from m) (m_to m) pr) (legal_moves p)
+  else m_promo m = NOPIECE.
+Proof. exact good_pos_promotions. Qed.
+Theorem C01_pieces_never_promote : forall p m k, good_pos_b p = true -> In m (legal_moves p) ->
+  holds p (m_from m) false k -> k <> PAWN -> m_promo m = NOPIECE.
+Proof. exact good_pos_pieces_never_promote. Qed.
+Example C01_good_startpos : good_pos_b startpos = true /\ (forall e, ep startpos = Some e -> rank_of e = 5).
+Proof. split; [vm_compute; reflexivity|intros e H; discriminate H]. Qed.
+
 (* non-vacuity of the statement's premise and an instance of its conclusion, by computation: the start position,
    "kiwipete", a Chess960 position with a pinned castling rook, an en-passant capture that would expose the king *)
 Definition instance_ok (p : Position) : bool :=
@@ -70,3 +94,7 @@ Print Assumptions C01_step_north.
 Print Assumptions C01_step_south.
 Print Assumptions C01_pawn_attacks_us.
 Print Assumptions C01_pawn_attacks_them.
+Print Assumptions C01_no_callback_twice.
+Print Assumptions C01_no_move_twice.
+Print Assumptions C01_promotions_all_four.
+Print Assumptions C01_pieces_never_promote.
